@@ -67,14 +67,15 @@ class EncodeBuilder:
         self._li = 0
         self.steps: List[pt.Expr] = []
 
-    def build(self, t=None, plan=None, lit=None, top=True):
+    def build(self, t=None, plan=None, lit=None, top=True, into=None):
+        """into: an existing instance to assemble the top-level value in (instead of a fresh one)"""
         if top:
             t, plan, lit = self.t, LenPlan(self.lens), self.literal
             self._li = 0
             self.steps = []
         k = t[0]
         spec = T.to_spec(t)
-        inst = spec.new_instance()
+        inst = into if (top and into is not None) else spec.new_instance()
         if k in ("bool", "byte", "uint", "address", "string", "dbytes"):
             (path, kind, bits, off, width) = self.layout[self._li]
             self._li += 1
@@ -124,6 +125,17 @@ def encode_program(t, lens: List[int], backend: str, literal=None, int_exprs: bo
 
     if backend == "main":
         return pt.Seq(body(), pt.Approve())
+
+    if backend == "abiret":
+        # the value is assembled inside an ABIReturnSubroutine and handed back through its output
+        def build_into(*, output):
+            b = EncodeBuilder(t, lens, literal, int_exprs)
+            b.build(into=output)
+            return pt.Seq(*b.steps)
+        build_into.__annotations__ = {"output": T.to_spec(t).annotation_type(), "return": pt.Expr}
+        f = pt.ABIReturnSubroutine(build_into)
+        res = T.to_spec(t).new_instance()
+        return pt.Seq(f().store_into(res), pt.Log(res.encode()), pt.Approve())
 
     @pt.Subroutine(pt.TealType.none)
     def build_and_log():
